@@ -435,7 +435,7 @@ func build(tier string) []*explore.Scenario {
 	var scs []*explore.Scenario
 	cfgs := []hlib.ChanCfg{{0, false}, {2, true}}
 	if tier == "thorough" {
-		cfgs = append(cfgs, hlib.ChanCfg{1, true}, hlib.ChanCfg{4, false})
+		cfgs = append(cfgs, hlib.ChanCfg{1, true}, hlib.ChanCfg{4, true})
 	}
 	for _, cfg := range cfgs {
 		for _, ca := range carriers {
